@@ -1,6 +1,16 @@
 import PorepyVerif.C28.Props
 #print axioms PorepyVerif.C28.tolSmall_default
+#print axioms PorepyVerif.C28.bound_gap
 #print axioms PorepyVerif.C28.seg2d_eq_spec
 #print axioms PorepyVerif.C28.seg3d_eq_spec
+#print axioms PorepyVerif.C28.mem_segInter2_iff
+#print axioms PorepyVerif.C28.mem_segInter3_iff
+#print axioms PorepyVerif.C28.segInter_wf
+#print axioms PorepyVerif.C28.seg_symmetric
+#print axioms PorepyVerif.C28.seg2d_symmetric
+#print axioms PorepyVerif.C28.seg3d_symmetric
+#print axioms PorepyVerif.C28.seg2d_zero_length_errors
+#print axioms PorepyVerif.C28.seg3d_zero_length
+#print axioms PorepyVerif.C28.seg2d_assert_never_fires
 #print axioms PorepyVerif.C28.seg3dCode_misses_crossing
 #print axioms PorepyVerif.C28.seg3dCode_doubles_touching_point
